@@ -196,3 +196,17 @@ CHECKS["C10"] = {
             "(every 61st + boundaries), complete 0..4098 in the thorough tier. D17 (strlen overrun) is an open known "
             "finding. Trusted: TLC, harness/bulk_driver.cpp, vm backend, g++ 12.",
 }
+
+CHECKS["C08"] = {
+    "technique": "TLA+ layout state machine (Layout.tla) explored completely by TLC, covering struct family generated from "
+                 "its transitions; Contracts LayoutAllowed/SStoreAllowed/SLoadAllowed evaluated by TLC on recorded images",
+    "text": "TLC explores the layout state machine (offset mod 8, maximal alignment) x 20 field kinds (every integer "
+            "width/signedness, bool, enum, float/double, object pointer, function pointer, char/int/long/pointer arrays, "
+            "nested struct) and emits all 640 transitions; a generator turns covering walks into a struct family (232 "
+            "structs; 12 in the quick tier) with RLBox reflection macros; for every struct the driver records the offsets, "
+            "size and alignment RLBox uses, the sandbox image after whole-struct stores and by-value arguments, and the field "
+            "values after loads and by-value results, with distinguishable values per slot and boundary/non-representable "
+            "values one slot at a time; TLC recomputes the ABI layout and checks every slot of every image.",
+    "note": "Quick tier covers a sample of the family; const fields excluded. Trusted: TLC, gen/struct_family.py, "
+            "harness/c08_driver.cpp, vm backend, g++ 12.",
+}
